@@ -1,5 +1,6 @@
 import TsVerif.C15.Lemmas
 import TsVerif.C03.Cover
+import TsVerif.C03.Rename
 /-!
 # C15 — the converse direction for merged pairs, through the source grammar
 
@@ -106,5 +107,22 @@ theorem merged_tables_equivalent (g : Grammar) (A B : Table) (f : SMap) (auxA au
     exact ⟨fa, by simpa [mapStack] using hB'⟩
   · rintro ⟨fb, hB⟩
     exact converse_through_grammar g A B f auxA auxB P ann start hsim hsafeB hrelB hcovA hokA hnames toks htoks fb t hB
+
+/-- the same with the validations evaluated on the tables with renamed non-terminals (`renameNT`:
+names of non-terminals are immaterial to the driver and to the statement) -/
+theorem merged_tables_equivalent_renamed (g : Grammar) (A B : Table) (renA renB : List (Nat × String))
+    (f : SMap) (auxA auxB : AuxMap) (P : List Prod) (ann : Ann) (start : Nat)
+    (hsim : simCheck (renameNT A renA) (renameNT B renB) f = true)
+    (hsafeB : tableSafe (renameNT B renB) = true) (hrelB : relOK g (renameNT B renB) auxB = true)
+    (hcovA : coverOK g (renameNT A renA) auxA P start = true)
+    (hokA : completeOK (renameNT A renA) P (auxAllow auxA) ann start = true)
+    (hnames : sameTerminals (renameNT A renA) (renameNT B renB) = true)
+    (toks : List Nat) (htoks : ∀ a, a ∈ toks → a < A.tokenCount ∧ a ≠ 0 ∧ isExtraSym B a = false) (t : PTree) :
+    (∃ fuel, runLoop A fuel { stack := [], toks := toks } = .accepted t) ↔
+    (∃ fuel, runLoop B fuel { stack := [], toks := toks } = .accepted t) := by
+  have := merged_tables_equivalent g (renameNT A renA) (renameNT B renB) f auxA auxB P ann start
+    hsim hsafeB hrelB hcovA hokA hnames toks htoks t
+  simp only [runLoop_rename] at this
+  exact this
 
 end TsVerif.C15
